@@ -41,7 +41,7 @@ def components(tier):
             return dict(fn=lambda x: enc(x), n_in=k, gen=lambda rng, rows: (rng.rand(rows, k) < 0.5).astype(np.float32), dtype="bits")
         comps.append((f"enc_{spec['family']}", {**cat.cell_of(spec), "component": "encoder"}, enc_factory))
         for dname in decs:
-            def dec_factory(dname=dname):
+            def dec_factory(dname=dname, aux=False):
                 with quiet():
                     enc = cat.build(spec)
                     dec = {"syndrome": lambda: D.SyndromeLookupDecoder(enc), "ml": lambda: D.BruteForceMLDecoder(enc), "bm": lambda: D.BerlekampMasseyDecoder(enc),
@@ -68,6 +68,10 @@ def components(tier):
                             if r != 1:
                                 p_ = rng.randint(0, n)
                                 L[r, p_] = -np.sign(L[r, p_]) * 0.05 * (1 + r)
+                        # planted: one member that is no codeword at all (random signs, weak magnitudes): iterative decoders converge on it at
+                        # another speed than on its neighbours, or not at all
+                        if rows >= 3:
+                            L[2] = (rng.choice([-1.0, 1.0], size=n) * rng.uniform(0.2, 1.5, size=n)).astype(np.float32)
                         return L
                     # planted: rows with 1..t errors at seeded positions among zero-syndrome rows (row 1 stays clean)
                     if t:
@@ -77,9 +81,18 @@ def components(tier):
                             w = int(rng.randint(1, t + 1))
                             for p_ in rng.choice(n, size=w, replace=False):
                                 C[r, p_] = 1 - C[r, p_]
+                    # planted: one arbitrary word (possibly beyond t errors, possibly a tie) among the correctable ones
+                    if rows >= 5:
+                        C[4] = (rng.rand(n) < 0.5)
                     return C.astype(np.float32)
+                if aux:
+                    kw = {"return_soft": True} if dname in ("bp", "minsum") else {"return_errors": True}
+                    return dict(fn=lambda x: dec(x, **kw)[1], n_in=n, gen=gen, dtype="llr" if soft else "bits")
                 return dict(fn=lambda x: dec(x), n_in=n, gen=gen, dtype="llr" if soft else "bits")
             comps.append((f"dec_{dname}_{spec['family']}", {**cat.cell_of(spec), "component": "decoder_" + dname}, dec_factory))
+            if dname in ("bp", "minsum", "syndrome", "ml", "bm", "rm_majority", "wagner"):
+                # the decoder's second output (soft codeword estimate / estimated error pattern) is per block as well
+                comps.append((f"dec_{dname}_aux_{spec['family']}", {**cat.cell_of(spec), "component": "decoder_" + dname + "_second_output"}, lambda f=dec_factory: f(aux=True)))
 
     code_entry({"family": "hamming", "mu": 3, "extended": False, "info": "left"}, ["syndrome", "ml", "bp", "minsum", "inverse"])
     code_entry({"family": "hamming", "mu": 3, "extended": True, "info": "right"}, ["syndrome"])
